@@ -162,10 +162,11 @@ structure Fn where
   usesT : Bool                 -- `have_template_args`: result/argument of a class template parameter type
   cppIf : Option Str           -- `cpp_if:` preprocessor condition of the declaration
   wrapOpt : Option Wrap := none -- wrap_c / wrap_fortran / wrap_python / wrap_lua in the declaration's `options:`
+  cfi : Bool := false          -- option F_CFI: the clone for Fortran is made by `arg_to_CFI`
   deriving Repr, DecidableEq
 
 inductive Gen where
-  | none | defaultArg | cxxTemplate | bufferify | fortranGeneric
+  | none | defaultArg | cxxTemplate | bufferify | fortranGeneric | cfi
   deriving Repr, DecidableEq
 
 /-- Where a list of functions lives: `fmtdict` values of the enclosing node and the
@@ -198,6 +199,7 @@ structure Rec where
   key : Str               -- key in `overloaded_functions`
   hasDefault : Bool       -- a parameter of the declaration has a default value
   cppIf : Option Str      -- cpp_if (shared by every clone)
+  cfi : Bool := false     -- options.F_CFI (shared by every clone)
   deriving Repr, DecidableEq
 
 /-- `clean_dictionary`: `function_suffix=dct.get("function_suffix", "_" + str(isuffix))`. -/
@@ -215,7 +217,7 @@ def Fn.base (sc : Scope) (f : Fn) : Rec :=
     templated := !f.tinst.isEmpty || f.usesT, generics := genericSuffixes 0 f.generics,
     hasBuf := f.hasBuf, isCtor := f.isCtor,
     key := if f.isCtor then sc.derived else f.name,
-    hasDefault := decide (f.ndefaults > 0), cppIf := f.cppIf }
+    hasDefault := decide (f.ndefaults > 0), cppIf := f.cppIf, cfi := f.cfi }
 
 /-- `has_default_args`: the `k`-th clone (parameters `[:nparams - ndefaults + k]`). -/
 def defaultClone (sc : Scope) (f : Fn) (k : Nat) : Rec :=
@@ -327,12 +329,27 @@ def core (sc : Scope) (fs : List Fn) : List Rec := number (stage1 sc fs)
 
 /-! ## bufferify and fortran_generic clones -/
 
+/-- `fmt.C_bufferify_suffix` (default). -/
 def bufSuffix : Str := "_bufferify".toList
+/-- `fmt.C_cfi_suffix` (default). -/
+def cfiSuffix : Str := "_CFI".toList
 
+/-- The suffix the clone made for Fortran appends to the `function_suffix` it inherits:
+    `arg_to_CFI` with option `F_CFI`, else `arg_to_buffer`. -/
+def cloneSuffix (r : Rec) : Str := if r.cfi then cfiSuffix else bufSuffix
+
+/-- Is a clone made?  `arg_to_buffer` returns early without a C wrapper (`node.wrap.c is False`) and
+    makes the clone for Fortran only; `arg_to_CFI` only asks for the Fortran wrapper. -/
+def hasClone (r : Rec) : Bool := (r.cfi || r.wrap.c) && r.wrap.f && r.hasBuf
+
+/-- "Create additional C bufferify functions": `arg_to_CFI` when `options.F_CFI` (it is `done`
+    whenever a string argument is there), else `arg_to_buffer`.  The clone is a copy of the node
+    (`node.clone()`) whose `function_suffix` is extended; its names are evaluated afterwards
+    from the templates. -/
 def bufferifyRec (r : Rec) : List Rec :=
-  if r.wrap.c && r.wrap.f && r.hasBuf then
-    [r, { r with gen := .bufferify, wrap := ⟨true, false, false, false⟩,
-                 sfx := r.sfx ++ bufSuffix, sfxLocal := true }]
+  if hasClone r then
+    [r, { r with gen := if r.cfi then .cfi else .bufferify, wrap := ⟨true, false, false, false⟩,
+                 sfx := r.sfx ++ cloneSuffix r, sfxLocal := true }]
   else [r]
 
 def genericRec (r : Rec) : List Rec :=
@@ -343,7 +360,7 @@ def genericRec (r : Rec) : List Rec :=
                  sfx := r.sfx ++ g, sfxLocal := true, arity := r.fullArity, generics := [] }
   else [r]
 
-/-- `define_function_suffix` (without `return_this`, CFI, assumed rank and the
+/-- `define_function_suffix` (without `return_this`, assumed rank and the
     `fortran_generic_c` variant). -/
 def expand (sc : Scope) (fs : List Fn) : List Rec :=
   ((core sc fs).flatMap bufferifyRec).flatMap genericRec
